@@ -746,9 +746,14 @@ def to_isar_variants(schema, rng):
                     local_patch.append('%s type %s %s' % (xml_name, m.name, t))
                     continue
                 if r < 0.30:
-                    forms.add('patch-remove')
-                    out.append('<member name="%s" type="%s"/>' % (m.name, t))
-                    out.append('<member name="%s_bogus" type="u64"/>' % m.name)
+                    # the member to remove sits after or before the real one (so it may be the very first member)
+                    pair = ['<member name="%s" type="%s"/>' % (m.name, t), '<member name="%s_bogus" type="u64"/>' % m.name]
+                    if rng.random() < 0.5:
+                        pair.reverse()
+                        forms.add('patch-remove-first' if not out else 'patch-remove')
+                    else:
+                        forms.add('patch-remove')
+                    out.extend(pair)
                     local_patch.append('%s remove %s_bogus' % (xml_name, m.name))
                     continue
                 out.append('<member name="%s" type="%s"/>' % (m.name, t))
@@ -833,5 +838,18 @@ def to_isar_variants(schema, rng):
             forms.add('message')
         body.append('<%s name="%s">%s\n</%s>' % (tag, xml_name, ''.join('\n    ' + x for x in out), tag))
     patch.extend(late_rules)
+    if rng.random() < 0.5 and len(set(x.split()[0] for x in patch)) > 1:
+        # a patch file need not keep one message's rules together: interleave the groups, keeping each group's order
+        forms.add('patch-rules-interleaved')
+        groups = {}
+        for line in patch:
+            groups.setdefault(line.split()[0], []).append(line)
+        patch = []
+        keys = list(groups)
+        while keys:
+            k = rng.choice(keys)
+            patch.append(groups[k].pop(0))
+            if not groups[k]:
+                keys.remove(k)
     xml = '<?xml version="1.0" encoding="utf-8"?>\n<x>\n%s\n</x>\n' % '\n'.join(body)
     return xml, ('\n'.join(patch) + '\n') if patch else None, forms
